@@ -1,6 +1,7 @@
 import Girc.Model.Names
 import Girc.Spec.NameSpec
 import Girc.Gen.Facts
+import Girc.Model.State
 /-
   C15 — validators match their grammar; identity is RFC 1459 case-insensitive.
   (The name-keyed lookups are proved in Props/C15Lookup.lean over the state model.)
@@ -114,6 +115,28 @@ theorem fold_append (a b : Bytes) : fold (a ++ b) = fold a ++ fold b := by simp 
 
 /-- Folded names are fixed points (used by every lookup). -/
 theorem fold_fixed (s : Bytes) : fold (fold s) = fold s := fold_idem s
+
+/-! ### Every name-keyed query gives the same answer for two names with the same fold -/
+
+theorem lookupUser_respects_fold (st : St) (a b : Bytes) (h : fold a = fold b) : st.lookupUser a = st.lookupUser b := by
+  simp [St.lookupUser, h]
+theorem lookupChannel_respects_fold (st : St) (a b : Bytes) (h : fold a = fold b) : st.lookupChannel a = st.lookupChannel b := by
+  simp [St.lookupChannel, h]
+theorem isInChannel_respects_fold (st : St) (a b : Bytes) (h : fold a = fold b) : st.isInChannel a = st.isInChannel b := by
+  simp [St.isInChannel, h]
+theorem userIn_respects_fold (c : Channel) (a b : Bytes) (h : fold a = fold b) : c.userIn a = c.userIn b := by
+  simp [Channel.userIn, h]
+theorem inChannel_respects_fold (u : User) (a b : Bytes) (h : fold a = fold b) : u.inChannel a = u.inChannel b := by
+  simp [User.inChannel, h]
+theorem permsLookup_respects_fold (u : User) (a b : Bytes) (h : fold a = fold b) : u.permsLookup a = u.permsLookup b := by
+  simp [User.permsLookup, h]
+theorem sourceEquals_respects_fold (s : Source) (a b : Bytes) (i hst : Bytes) (h : fold a = fold b) :
+    sourceEquals s ⟨a, i, hst⟩ = sourceEquals s ⟨b, i, hst⟩ := by
+  simp [sourceEquals, h]
+/-- … and names with DIFFERENT folds are different identities for the comparison. -/
+theorem sourceEquals_iff (a b : Source) :
+    sourceEquals a b = true ↔ fold a.name = fold b.name ∧ a.ident = b.ident ∧ a.host = b.host := by
+  simp [sourceEquals, and_assoc]
 
 /-! ### Non-vacuity -/
 example : Spec.ValidNick [0x5B, 0x61, 0x2D, 0x39] := by rw [← isValidNick_iff]; decide
